@@ -12,7 +12,7 @@ cp "$D/demo.rs" regexml/tests/demo_seed.rs
 base=$(cargo test --offline -q -p regexml --test demo_seed 2>&1 | grep -E "^test result" | head -1)
 if patch -p1 -s < "$D/patch.diff" >/dev/null 2>&1; then applied=yes; else applied=no; fi
 if [ "$applied" = yes ]; then
-  withp=$(cargo test --offline -q -p regexml --test demo_seed 2>&1 | grep -E "^test result|error(\[|:)" | head -1)
+  withp=$(cargo test --offline -q -p regexml --test demo_seed 2>&1 | grep -E "^test result|^error(\[|:)" | head -1)
   rm -f regexml/tests/demo_seed.rs
   suite=$(cargo nextest run --workspace --no-fail-fast --offline 2>&1 | grep -E "Summary|error:" | head -1)
 else
